@@ -154,7 +154,19 @@ def run(tier, seed, replay=None):
     ck.add(it.obls)
     for nm in ("digital_rf_get_subdir_file",):
         ck.add_function(tu.func_info(nm))
-    ck.notes.append("callee contracts (digital_rf_get_timestamp_floor, digital_rf_get_sample_ceil, digital_rf_get_time_parts) are proved by check C03")
+    # the names are exact only if the callees keep their contracts: their bodies are proved here as well (same proof units as C03), so that
+    # a change to a time helper that moves a file or directory name is reported under this property too
+    from checks import C03 as _c03
+    for c in (c_time.FLOOR, c_time.CEIL, c_time.TIME_PARTS):
+        itc = cfront.CInterp(tu, contracts={}, externals=X)
+        c.verify_body(itc)
+        ck.add(itc.obls)
+        ck.add_function(tu.func_info(c.name))
+    ck.replayers["digital_rf_get_time_parts"] = _c03.replay_parts
+    ck.replayers["digital_rf_get_timestamp_floor"] = _c03.replay_floor
+    ck.replayers["nowrap.digital_rf_get_timestamp_floor"] = _c03.replay_floor
+    ck.replayers["digital_rf_get_sample_ceil"] = _c03.replay_ceil
+    ck.replayers["nowrap.digital_rf_get_sample_ceil"] = _c03.replay_ceil
     lemmas(ck)
     # reachability of the contract's precondition, at a file boundary
     k, n, d, S, F, st0 = z3.Ints("global_sample w.sample_rate_numerator w.sample_rate_denominator w.subdir_cadence_secs w.file_cadence_millisecs w.global_start_sample")
